@@ -326,6 +326,7 @@ def layer_a_plen_units(quick: bool) -> List[Tuple[str, List[Dict[str, Any]]]]:
                     else:
                         assign.append({"v": v, "lk": 32})
                         assign.append({"v": v, "lk": 8})
+                        assign.append({"v": v, "lk": 0})  # an object of no bits represents zero only
                 progs.append({"pid": pid, "dops": [d, kd], "params": params, "assign": assign, "tags": ["plen", base, layout]})
     return [("A/plen", progs)]
 
@@ -460,6 +461,8 @@ def templates() -> Dict[str, Any]:
     reg("SYS", 1, lambda i: [{f"s{i}": 30}, {f"s{i}": 0}], lambda i: [P("SYSTEM", f"s{i}", dop="u8", sysparam="SECOND")])
     reg("LK", None, lambda i: [{f"lv{i}": b""}, {f"lv{i}": b"\x01\x02"}, {f"lv{i}": b"\x09", f"lk{i}": 8}],
         lambda i: [P("LENGTH-KEY", f"lk{i}", dop="u8", id=f"L.LK.@PID@.{i}"), P("VALUE", f"lv{i}", dop=f"@PLEN@{i}")])
+    reg("LKSAME", None, lambda i: [{f"in{i}": {"v": b"\x01"}, f"ov{i}": b"\x02\x03"}, {f"in{i}": {"v": b""}, f"ov{i}": b"\x07"}, {f"in{i}": {"v": b"\x01\x02"}, f"ov{i}": b""}],
+        lambda i: [P("LENGTH-KEY", "lk", dop="u8", id=f"L.LK.@PID@.{i}"), P("VALUE", f"in{i}", dop="S_lk"), P("VALUE", f"ov{i}", dop=f"@PLENSAME@{i}")])
     reg("TKS", None, lambda i: [{f"ts{i}": ("r1", _item(1, 2))}, {f"ts{i}": ("r2", 0x1234)}, {f"ts{i}": ("r3", {"a": 9, "b": 0xBEEF}), f"tk{i}": "r3"}],
         lambda i: [P("TABLE-KEY", f"tk{i}", table="T", id=f"L.TK.@PID@.{i}"), P("TABLE-STRUCT", f"ts{i}", key=f"tk{i}", key_id=f"L.TK.@PID@.{i}")])
     reg("TKSROW", None, lambda i: [{f"tsr{i}": ("r2", 0x1234)}],
@@ -526,7 +529,7 @@ def templates() -> Dict[str, Any]:
 
 
 SIGMA_FULL = ["CC8", "CC16L", "CCNIB", "PC", "V8", "V12b", "V8b4", "VF32", "SLK", "VLIN", "VDEF", "VTT", "RES8", "RES4", "SYS", "LK", "TKS", "TKSROW", "SFLAT",
-              "SSUB", "SNEST", "SSIZED", "SF2", "SF2p", "DL1", "DL2", "EOP", "EMLAST", "EMCC", "MUXd", "MUXn", "MUXe", "MUXf", "SDYN", "EOPD", "DLD", "EMD", "MUXD", "EOPDE", "EOPLK", "SKB2", "SKB4", "VLDEF", "DTC", "DTCENV", "BZ", "BEOP", "LEAD", "SFV", "EMT", "EMTC", "TKS2", "CCMM"]
+              "SSUB", "SNEST", "SSIZED", "SF2", "SF2p", "DL1", "DL2", "EOP", "EMLAST", "EMCC", "MUXd", "MUXn", "MUXe", "MUXf", "SDYN", "EOPD", "DLD", "EMD", "MUXD", "EOPDE", "EOPLK", "SKB2", "SKB4", "VLDEF", "DTC", "DTCENV", "BZ", "BEOP", "LEAD", "SFV", "EMT", "EMTC", "TKS2", "CCMM", "LKSAME"]
 SIGMA_3 = ["CC8", "V8", "V12b", "V8b4", "VDEF", "RES8", "LK", "TKS", "SFLAT", "SSIZED", "SF2p", "DL1", "EOP", "MUXd", "DTCENV", "BZ", "SDYN", "EOPD"]
 SIGMA_4 = ["CC8", "V12b", "SSIZED", "DL1", "MUXd", "BZ"]
 MODES = ["auto", "at", "hole"]
@@ -541,6 +544,8 @@ def build_program(seq: List[Tuple[str, str]], kind: str = "REQUEST", request: Op
                   max_assign: int = 48) -> Optional[Dict[str, Any]]:
     """seq: list of (template name, mode). Returns None if the sequence is ill-formed by the REFERENCE rules."""
     T = templates()
+    if [t for t, _ in seq].count("LKSAME") > 1:
+        return None  # its outer key has a fixed short name: twice in one message would be a duplicate name
     ml = {"auto": "a", "at": "e", "hole": "h", "overlap": "o", "far": "f", "zero": "z"}
     pid = ("q" if kind == "REQUEST" else "p") + "_" + "_".join(f"{t}{ml[m]}" for t, m in seq)
     pid = pid.replace("-", "")
@@ -600,6 +605,10 @@ def build_program(seq: List[Tuple[str, str]], kind: str = "REQUEST", request: Op
             if isinstance(p.get("dop"), str) and p["dop"].startswith("@PLEN@"):
                 dn = f"pl_{pid}_{idx}"
                 dops.append({"name": dn, "dct": {"k": "PLEN", "base": "A_BYTEFIELD", "key": f"lk{idx}", "key_id": f"L.LK.{pid}.{idx}"}})
+                p["dop"] = dn
+            if isinstance(p.get("dop"), str) and p["dop"].startswith("@PLENSAME@"):  # the outer key has the name of the nested structure's key
+                dn = f"pls_{pid}_{idx}"
+                dops.append({"name": dn, "dct": {"k": "PLEN", "base": "A_BYTEFIELD", "key": "lk", "key_id": f"L.LK.{pid}.{idx}"}})
                 p["dop"] = dn
             if isinstance(p.get("dop"), str) and p["dop"].startswith("@ENV@"):
                 dn = f"ed_{pid}_{idx}"
